@@ -13,7 +13,7 @@ func verifBound() int {
 	if verifrt.Tier() > 0 {
 		return 9
 	}
-	return 6
+	return 5
 }
 
 func verifEncode(data []byte, split, width int) []byte {
@@ -36,8 +36,8 @@ func Verif_C06_ascii85_roundtrip() {
 	split := verifrt.Len("split", 0, n)
 	width := []int{1, 8, 79}[verifrt.Choice("width", 3)]
 	enc := verifEncode(data, split, width)
-	bufsz := verifrt.Len("bufsz", 1, 5)
-	chunk := verifrt.Len("chunk", 0, 3)
+	bufsz := verifrt.Len("bufsz", 1, 3+2*verifrt.Tier())
+	chunk := verifrt.Len("chunk", 0, 1+2*verifrt.Tier())
 	r := Decode(&verifrt.ChunkReader{Data: enc, Chunk: chunk, EOF: io.EOF})
 	out, err, exhausted := verifrt.ReadAll(r, bufsz, 4*n+16)
 	verifrt.Cover("decoded")
